@@ -366,6 +366,9 @@ class GenericPlainRegistry(Generic[QuantityT, UnitT], metaclass=RegistryMeta):
 
     def __deepcopy__(self: Self, memo) -> type[Self]:
         new = object.__new__(type(self))
+        # Bound methods stored in the registry (e.g. the definition adders) refer
+        # back to it: they must end up bound to the copy, not to a second copy.
+        memo[id(self)] = new
         new.__dict__ = copy.deepcopy(self.__dict__, memo)
         new._init_dynamic_classes()
         return new
